@@ -32,18 +32,18 @@ pub fn ensure_globals() {
 /// of) std's futex-based `Once::call` state machine: later `ensure()` calls take
 /// the `is_completed()` fast path.  Mirrors the eight lines of `ensure()`.
 pub fn init_globals() {
+    // the registry's own lazy initialisation (the shim `Once` is a flag)
+    GlobalData::ensure();
+}
+/// Enumeration harnesses: start over with an empty registry (the old one is leaked).
+pub fn reset_globals() {
     unsafe {
-        if super::GLOBAL_DATA.is_none() {
-            super::GLOBAL_DATA = Some(GlobalData {
-                data: HalfLock::new(SignalData {
-                    signals: HashMap::new(),
-                    next_id: 1,
-                }),
-                race_fallback: HalfLock::new(None),
-            });
+        if let Some(old) = super::GLOBAL_DATA.take() {
+            ::std::mem::forget(old);
         }
-        super::GLOBAL_INIT.call_once(|| {});
+        super::GLOBAL_INIT.verif_reset();
     }
+    GlobalData::ensure();
 }
 
 // ---- half-lock façade ------------------------------------------------------
@@ -182,6 +182,18 @@ pub fn lock_counter_vars() -> [usize; 4] {
     let a = g.data.verif_ids();
     let b = g.race_fallback.verif_ids();
     [a.2, a.3, b.2, b.3]
+}
+/// Read sections currently open on the registry's data lock (C01: an action must
+/// only ever run inside the section that obtained it).
+pub fn data_readers() -> usize {
+    GlobalData::ensure().data.verif_readers()
+}
+/// Is the writer mutex of the data lock held right now?
+pub fn data_mutex_locked() -> bool {
+    GlobalData::ensure().data.verif_mutex_locked()
+}
+pub fn fallback_readers() -> usize {
+    GlobalData::ensure().race_fallback.verif_readers()
 }
 /// Poison both registry writer mutexes (an earlier mutator panicked while holding them).
 pub fn poison_registry_locks() {
